@@ -65,6 +65,46 @@ class ClassInfo:
         return '<Class %s>' % self.qualname
 
 
+def nested_by_role(fi, name, role=None):
+    """A nested function of fi: by its usual name, else by its role (so that
+    renaming a closure does not make the anchor vanish).  Roles:
+    'only' - the single nested function; ('passed_to', method, position) - the
+    closure passed as that positional argument of a call of that method name
+    inside fi (d.addCallback(ok), d.addCallbacks(reply, error),
+    X.addErrback(f)); ('called_with', n) - the closure that fi calls directly
+    with n positional arguments most often."""
+    import ast
+    sub = fi.nested.get(name)
+    if sub is not None or role is None:
+        return sub
+    if isinstance(role, list):
+        for r in role:
+            sub = nested_by_role(fi, name, r)
+            if sub is not None:
+                return sub
+        return None
+    if role == 'only':
+        return next(iter(fi.nested.values())) if len(fi.nested) == 1 else None
+    if role[0] == 'passed_to':
+        _, meth, pos = role
+        for n in ast.walk(fi.node):
+            if isinstance(n, ast.Call) and isinstance(n.func, ast.Attribute) \
+                    and n.func.attr == meth and len(n.args) > pos and \
+                    isinstance(n.args[pos], ast.Name) and \
+                    n.args[pos].id in fi.nested:
+                return fi.nested[n.args[pos].id]
+        return None
+    if role[0] == 'called_with':
+        from collections import Counter
+        cnt = Counter()
+        for n in ast.walk(fi.node):
+            if isinstance(n, ast.Call) and isinstance(n.func, ast.Name) and \
+                    n.func.id in fi.nested and len(n.args) == role[1]:
+                cnt[n.func.id] += 1
+        return fi.nested[cnt.most_common(1)[0][0]] if cnt else None
+    return None
+
+
 class Module:
     def __init__(self, name, path, relpath, src):
         self.name = name
@@ -99,6 +139,22 @@ class Module:
 
 class Program:
     _KNOWN = None
+
+    def is_renamed_closure(self, qn):
+        """A nested function whose name is not in the known list, inside a
+        known function that has exactly as many nested functions as it had
+        when the list was made: a closure that was renamed, not a helper
+        that was extracted (it keeps being analysed as a unit)."""
+        known = self.known_funcs()
+        fi = self.all_funcs.get(qn)
+        if known is None or fi is None or getattr(fi, 'parent', None) is None:
+            return False
+        pq = fi.parent.qualname
+        if pq not in known:
+            return False
+        before = sum(1 for k in known if k.startswith(pq + '.') and
+                     '.' not in k[len(pq) + 1:])
+        return before == len(fi.parent.nested)
 
     def known_funcs(self):
         """Qualified names of the functions that existed when the rules were
